@@ -44,6 +44,9 @@ type Flat struct {
 	first map[*cfg.Block]int // entry node of each block
 	// WalkStop is the node at which the last WalkPath gave up (undecidable condition)
 	WalkStop int
+	// Inl / Alias are set by virtual inlining (inline.go): origin of spliced nodes, parameter -> argument bindings
+	Inl   map[int]InlInfo
+	Alias map[types.Object]ast.Expr
 }
 
 func (p *Prog) mayReturn(pkg *packages.Package) func(*ast.CallExpr) bool {
@@ -518,4 +521,134 @@ func (f *Flat) Dump() string {
 		sb.WriteString("\n")
 	}
 	return sb.String()
+}
+
+// ReachNil is Reach with nil-facts: along each path it remembers which variables were found nil / non-nil by
+// "x == nil" / "x != nil" tests (under any number of negations) and copies the fact through plain "y := x"
+// assignments, so that a path that finds the same value nil in a helper and non-nil in its caller (or twice
+// in a row) is not followed. Any other assignment forgets the fact. Without nil tests it equals Reach.
+func (f *Flat) ReachNil(start []int, stop func(*GNode) bool) map[int]bool {
+	info := f.Pkg.TypesInfo
+	type state struct {
+		id    int
+		facts string
+	}
+	enc := func(m map[types.Object]bool) string {
+		var ks []string
+		for o, v := range m {
+			ks = append(ks, fmt.Sprintf("%p=%v", o, v))
+		}
+		sort.Strings(ks)
+		return strings.Join(ks, ";")
+	}
+	seenState := map[state]bool{}
+	seen := map[int]bool{}
+	type item struct {
+		id    int
+		facts map[types.Object]bool // true = known nil, false = known non-nil
+	}
+	var work []item
+	push := func(id int, facts map[types.Object]bool) {
+		k := state{id, enc(facts)}
+		if seenState[k] {
+			return
+		}
+		seenState[k] = true
+		seen[id] = true
+		work = append(work, item{id, facts})
+	}
+	for _, s := range start {
+		if stop != nil && stop(f.Nodes[s]) {
+			continue
+		}
+		push(s, map[types.Object]bool{})
+	}
+	clone := func(m map[types.Object]bool) map[types.Object]bool {
+		c := make(map[types.Object]bool, len(m)+1)
+		for k, v := range m {
+			c[k] = v
+		}
+		return c
+	}
+	for len(work) > 0 {
+		it := work[len(work)-1]
+		work = work[:len(work)-1]
+		n := f.Nodes[it.id]
+		facts := it.facts
+		if n.IsCond {
+			e := n.Ast.(ast.Expr)
+			neg := false
+			for {
+				e = ast.Unparen(e)
+				if u, ok := e.(*ast.UnaryExpr); ok && u.Op == token.NOT {
+					neg = !neg
+					e = u.X
+					continue
+				}
+				break
+			}
+			if x := isNilCompare(info, e); x != nil {
+				if o := objOf(info, x); o != nil {
+					nilLabel := 1
+					if e.(*ast.BinaryExpr).Op == token.NEQ {
+						nilLabel = 2
+					}
+					if neg {
+						nilLabel = 3 - nilLabel
+					}
+					for _, ed := range n.Succs {
+						wantNil := ed.Label == nilLabel
+						if v, known := facts[o]; known && v != wantNil {
+							continue
+						}
+						if stop != nil && stop(f.Nodes[ed.To]) {
+							continue
+						}
+						nf := clone(facts)
+						nf[o] = wantNil
+						push(ed.To, nf)
+					}
+					continue
+				}
+			}
+		} else if n.Ast != nil {
+			as, isAs := n.Ast.(*ast.AssignStmt)
+			assigned := assignedObjs(info, n.Ast)
+			if len(assigned) > 0 {
+				nf := clone(facts)
+				for _, o := range assigned {
+					delete(nf, o)
+				}
+				if isAs && len(as.Lhs) == len(as.Rhs) {
+					for i := range as.Lhs {
+						l, r := objOf(info, as.Lhs[i]), objOf(info, as.Rhs[i])
+						if l != nil && r != nil {
+							if v, known := facts[r]; known {
+								nf[l] = v
+							}
+						}
+					}
+				}
+				facts = nf
+			}
+		}
+		for _, ed := range n.Succs {
+			if stop != nil && stop(f.Nodes[ed.To]) {
+				continue
+			}
+			push(ed.To, facts)
+		}
+	}
+	return seen
+}
+
+// MustPrecedeNil is MustPrecede on nil-fact-pruned paths.
+func (f *Flat) MustPrecedeNil(A map[int]bool, target int) bool {
+	if A[f.Entry] {
+		return true
+	}
+	if target == f.Entry {
+		return false
+	}
+	return !f.ReachNil([]int{f.Entry}, func(n *GNode) bool { return A[n.ID] })[target]
 }
